@@ -444,7 +444,7 @@ def main():
     per_variant = {}
     for r in results:
         evals += r["evals"]
-        sigs.update(r.get("sigs") or [])
+        sigs.update(int(x, 16) for x in (r.get("sigs") or []))
         for s in (r.get("samples") or []):
             if len(samples) < 8:
                 samples.append(s)
